@@ -269,6 +269,31 @@ def large(seed, prefix='L'):
         yield {'id': '%s%d' % (prefix, i), 'comp': 'dec', 'solo': True, 'hook': False, 'ops': ops}
 
 
+def large_after_fault(seed, prefix='M'):
+    """C06 recovery at the top of the size range: a message that loses a frame, then a complete message of
+    65520..65535 bytes on the same endpoint (round6b-2: a size guard that counts the stored header)."""
+    rng = random.Random(seed)
+    for i, total in enumerate([65535, 65520, 65527, 65519]):
+        s = Sender(rng, 0x0204, 3, rng.choice([0, 65500]))
+        ops = [{'op': 'new'}]
+        for which, (tot, n, lost) in enumerate([(6000, 5, 2), (total, 45, None)]):
+            p = logical(rng, 'generic', tot, s.ver)
+            p['pl'] = [(11 * j + tot + which) % 256 for j in range(tot)]
+            cuts = [tot * k // n for k in range(n + 1)]
+            for k in range(n):
+                seg = 1 if k == 0 else (3 if k == n - 1 else 2)
+                body = wire.msg_header(p, seg, cuts[k + 1] - cuts[k]) + p['pl'][cuts[k]:cuts[k + 1]]
+                f = s.frame(p['mt'], body)
+                if k == lost:
+                    continue                                     # lost on the way (the counter has moved on)
+                last = seg == 3
+                ok = last and lost is None
+                ops.append({'op': 'decode', 'in': f,
+                            'meta': {'ep': 0, 'seg': seg, 'fault': 'drop' if lost is not None and k > lost else 'none',
+                                     'sent': [{'ep': [s.dev, s.st], 'p': p}] if last else [], 'deliver': [[p] if ok else []]}})
+        yield {'id': '%s%d' % (prefix, i), 'comp': 'dec', 'solo': True, 'hook': False, 'ops': ops}
+
+
 def mutate(rng, frame):
     f = list(frame)
     if not f:
